@@ -53,6 +53,19 @@ CLAIMED["C12"] = dict(
    note="Same trusted base as C01 (the per-class fit is the C01 carving model).",
    technique="Coq proof (structural, string order is a total order) + three-way correspondence (multiclass / binary / model)",
    design="5/C12")
+CLAIMED["C10"] = dict(
+   text="PARTIAL by nature. Proved (Coq, all inputs): assembling per-feature pool results in ANY completion "
+        "order yields the same map; the per-feature carving loop over a shared state gives, for every "
+        "feature, an entry that depends only on that feature's own initial entry - hence any iteration order "
+        "(any hash seed) and any set of co-features fit the same. Exercised on the real code on every run: "
+        "each case is fitted in fresh interpreters under other PYTHONHASHSEEDs, reversed feature lists and "
+        "rotated columns, every feature alone, pools stubbed to complete in permuted orders, and real pools "
+        "(n_jobs 2 and 4); values_orders and transform outputs must equal the baseline's.",
+   note="The model abstracts the per-feature step as a function of the feature's own entry; that the real "
+        "step has this frame property is what the paired fits test (sampled). Real OS scheduling cannot be "
+        "controlled: completion orders are enumerated with an in-process stub Pool only.",
+   technique="Coq proof (commutation/frame lemmas over insertion-ordered maps) + paired real fits (hash seeds, orders, subsets, n_jobs, stubbed pools)",
+   design="5/C10")
 NOT_YET = "not yet built in this round: model and correspondence for this property are still to be written (see DESIGN.md section 9 build order)"
 
 checks = []
